@@ -1528,6 +1528,8 @@ class Interp(object):
     def truth(self, v, text=''):
         if isinstance(v, Const):
             return bool(v.value)
+        if isinstance(v, Builtin) and v.name.startswith('hx:falsy-callable'):
+            return False        # a host callable whose truth value is False (a callable container that is empty, a memo with __len__ 0)
         if isinstance(v, (Err, Exc, Obj, Func, Bound, Builtin, TypeV, ClassV, ModuleV)):
             if isinstance(v, Obj):
                 # __bool__ / __len__ are not defined by the package classes
@@ -1548,6 +1550,8 @@ class Interp(object):
             return False
         if tag in ('err', 'func', 'datetime', 'date', 'obj'):
             return True
+        if tag == 'match' and not isinstance(v, Top):
+            return True         # a match object (the failed match is None and never gets here)
         if isinstance(v, Top):
             if v.ignorance:
                 self.imprecise('branch on unmodelled value (%s) at %s' % (v.why, text))
